@@ -31,6 +31,13 @@ def _run(ctx, w):
     from rules import c02
     c02.relayout_clears_wrap(ctx, w, S, R, "Y10")
     shared.mode_arm_siblings(ctx, w, S, R, "Y11")
+    # "no other cell or soft-wrap mark changes": the buffer-level print / insert primitives against their specification
+    from rules import prims as _prims
+    _prims.buffer_edit_primitives(ctx, w, S, R, "Y9b", spec=True)
+    # the wrap-pending position is left by every cursor command (else the next character wraps where it should overwrite)
+    _c05w = __import__("rules.c05", fromlist=["x"])
+    _c05w.wrap_pending_rule(ctx, w, S, R)
+    _c05w.cursor_verdict(ctx, w, S, R, "Y12")
     # where a wrapping character scrolls depends on the bottom margin: its validity and its reset on height changes
     from rules import c05 as _c05
     _c05.margin_rules(ctx, w, S, R)
